@@ -9,6 +9,7 @@ import (
 	"strings"
 
 	"github.com/gittuf/gittuf/internal/attestations"
+	"github.com/gittuf/gittuf/internal/attestations/authorizations"
 	"github.com/gittuf/gittuf/internal/cache"
 	"github.com/gittuf/gittuf/internal/policy"
 	"github.com/gittuf/gittuf/internal/signerverifier/dsse"
@@ -493,6 +494,8 @@ func (w *World) execApprove(a *Actor, op *Op) error {
 	existing, err := atts.GetReferenceAuthorizationFor(a.H, ap.Ref, from, to)
 	if err == nil {
 		env = existing
+	} else if !errors.Is(err, authorizations.ErrAuthorizationNotFound) {
+		return err // as the real client does: only "not found" starts a new authorization
 	} else {
 		stmt, err := attestations.NewReferenceAuthorizationForCommit(ap.Ref, from, to)
 		if err != nil {
